@@ -20,5 +20,5 @@ if missing:
     sys.exit(1)
 PY
 rc=$?
-rm -f "$out"
+rm -f "$out" "$repo/test/chrM-Y-trunc.hg19.bed"
 exit $rc
